@@ -69,7 +69,7 @@ STRATEGY = (("ipv4", "netaddr/strategy/ipv4.py"), ("ipv6", "netaddr/strategy/ipv
 
 # receiver class -> parameters standing for the object state (version, width, _value[, _prefixlen] / _start, _end values)
 STATE = {"BaseIP": ("ver", "w", "v"), "IPAddress": ("ver", "w", "v"), "IPNetwork": ("ver", "w", "v", "p"),
-         "IPRange": ("ver", "w", "s", "e"), None: (), "SubnetSplitter": ()}
+         "IPRange": ("ver", "w", "s", "e"), None: (), "SubnetSplitter": (), "EUI": ("ver", "v")}
 FIELD = {"self._value": "v", "self._prefixlen": "p"}      # assignable state attributes -> their state parameter
 
 # ---- trusted translator input --------------------------------------------------------------------------------------
@@ -124,7 +124,20 @@ UNITS = [
     ("netaddr/strategy/__init__.py", "pysrc_strategy_gen.v", "strategy_", "",
      [(None, f, {"words": "list int", "int_val": "int", "word_size": "int", "num_words": "int"}) for f in (
          "valid_words", "int_to_words", "words_to_int")]),
+    # the word functions of the two EUI strategy modules (they pick the dialect and call the functions above)
+    ("netaddr/strategy/eui48.py", "pysrc_eui48_gen.v", "eui48_", "",
+     [(None, f, {"words": "list int", "int_val": "int", "dialect": "optdialect"}) for f in ("valid_words", "int_to_words", "words_to_int")]),
+    ("netaddr/strategy/eui64.py", "pysrc_eui64_gen.v", "eui64_", "",
+     [(None, f, {"words": "list int", "int_val": "int", "dialect": "optdialect"}) for f in ("valid_words", "int_to_words", "words_to_int")]),
+    # the integer methods of EUI (state: _module.version, _value)
+    ("netaddr/eui/__init__.py", "pysrc_eui_gen.v", "", " Model.Eui Model.SrcPreludeEui",
+     [("EUI", m, {}) for m in ("version", "value", "__int__", "oui", "is_iab", "eui64", "modified_eui64", "ipv6", "ipv6_link_local")]),
 ]
+# strategy modules whose constants width / version / max_int a unit may read through the alias it imports them under
+UNIT_STRATEGY = {"pysrc_eui_gen.v": (("eui48", "netaddr/strategy/eui48.py"), ("eui64", "netaddr/strategy/eui64.py"))}
+# classes whose constructor call C(e) is represented by its integer argument e (the registry lookup the constructor makes is
+# NOT translated; the models of C08/C19 treat it separately)
+CTOR_AS_ARG = ("OUI", "IAB")
 # names imported from netaddr.compat that a unit may read: output file -> {name: (type, Coq term)}; the term must be defined by
 # the modules the unit `Require`s (Model/PySlice.v: ssize_max = sys.maxsize of the 64-bit platform the check runs on).
 # compat_ok() checks that netaddr/compat.py still binds the name to one of the expressions listed here.
@@ -148,6 +161,7 @@ RESERVED = set("ver w v p s e in let if then else match with end fun forall exis
                "py_pop operand OAddr ONet ORng OOther struct "
                "py_nonempty py_sorted_desc py_set_remove py_set_of_list py_set_union py_flat_map_o net_key_eqb py_list_subnet "
                "py_cidr_merge inl inr sum py_except ssize_max py_slice_indices py_range_len iterator ItEmpty ItIprange "
+               "eui ever evalue edialect mk_eui existsb "
                # constructors / constants of the Coq prelude: a pattern variable of that name would be read as the constructor
                "left right inl inr pair tt I conj eq_refl xH xO xI Z0 Zpos Zneg Lt Gt Eq ex_intro exist inleft inright "
                "Build_net AddrFormatError AddrConversionError ValueError TypeError IndexError KeyError StructError "
@@ -159,7 +173,7 @@ CMP = {ast.Lt: "(%s <? %s)", ast.LtE: "(%s <=? %s)", ast.Gt: "(%s >? %s)", ast.G
        ast.NotEq: "(negb (%s =? %s))"}
 COQTY = {"int": "Z", "bool": "bool", "tuple": "(list Z)", "obj": "(Z * Z)", "net": "net", "self": "Z", "sarg": "sarg",
          "operand": "operand", "unit": "unit", "optint": "(option Z)", "slice": "(option Z * option Z * option Z)",
-         "iterator": "iterator"}
+         "iterator": "iterator", "eui": "eui", "dialect": "(Z * Z)", "optdialect": "(option (Z * Z))"}
 # the kinds of an `operand` (SrcPrelude.operand), their fields and the class each one stands for
 OPERAND = (("OAddr", ("ver", "v")), ("ONet", ("ver", "v", "p")), ("ORng", ("ver", "s", "e")), ("OOther", ()))
 KINDCLASS = {"OAddr": "IPAddress", "ONet": "IPNetwork", "ORng": "IPRange"}
@@ -267,7 +281,7 @@ def is_set(t):
 
 def is_value(t):
     """types whose terms are first-class Coq values that a loop or a join can carry"""
-    return t in ("int", "bool", "net", "optint", "iterator") or (isinstance(t, tuple) and t[0] in ("list", "tup", "set"))
+    return t in ("int", "bool", "net", "optint", "iterator", "eui", "dialect", "optdialect") or (isinstance(t, tuple) and t[0] in ("list", "tup", "set"))
 
 
 def parse_type(s):
@@ -372,6 +386,18 @@ class Module:
         ast.copy_location(f, st)
         return ast.fix_missing_locations(f)
 
+    def named_property(self, c, st, name):
+        """class-level `name = property(_getter, ...)` with `_getter` a plain method of the same class: that method, else None"""
+        if not (isinstance(st, ast.Assign) and len(st.targets) == 1 and isinstance(st.targets[0], ast.Name) and st.targets[0].id == name
+                and isinstance(st.value, ast.Call) and dotted(st.value.func) == "property" and st.value.args
+                and isinstance(st.value.args[0], ast.Name) and not any(k.arg == "fget" for k in st.value.keywords)):
+            return None
+        g = [f for f in c.body if isinstance(f, ast.FunctionDef) and f.name == st.value.args[0].id]
+        binds = [n for x in c.body for n in ([x] if isinstance(x, (ast.FunctionDef, ast.ClassDef)) else ast.walk(x))
+                 if (isinstance(n, ast.Name) and n.id == st.value.args[0].id and isinstance(n.ctx, ast.Store))
+                 or (isinstance(n, (ast.FunctionDef, ast.ClassDef)) and n.name == st.value.args[0].id)]
+        return g[0] if len(g) == 1 and len(binds) == 1 and not g[0].decorator_list else None
+
     def lookup(self, cls, name):
         """(defining class, FunctionDef, is_property) of attribute `name` of class `cls` (depth-first through the bases)."""
         c = self.classes.get(cls)
@@ -379,7 +405,7 @@ class Module:
             return None
         fs = [f for f in c.body if isinstance(f, ast.FunctionDef) and f.name == name
               and not any(isinstance(d, ast.Attribute) and d.attr in ("setter", "deleter") for d in f.decorator_list)]
-        lam = [(st, self.lambda_property(st, name)) for st in c.body]
+        lam = [(st, self.lambda_property(st, name) or self.named_property(c, st, name)) for st in c.body]
         lam = [(st, f) for st, f in lam if f is not None]
         # any other binding of the name in the class body (alias assignment, definition under if/try, ...) is not understood
         other = [n for st in c.body if st not in fs and not (isinstance(st, ast.FunctionDef) and st.name == name)
@@ -487,7 +513,9 @@ class Fn:
         for x, (ty, term) in UNIT_NAMES.get(tr.out, {}).items():
             if self.mod.imports.get(x) == "netaddr.compat." + x and compat_ok(x):
                 self.attrs[x] = (ty, term)
-        for m, _ in STRATEGY:
+        if recv == "EUI":                                # an EUI object: (_module.version, _value)
+            self.attrs = {"self._module.version": ("int", "ver")}
+        for m, _ in STRATEGY + UNIT_STRATEGY.get(tr.out, ()):
             if self.mod.imports.get("_" + m) == "netaddr.strategy." + m:
                 for c in ("width", "version", "max_int"):
                     self.attrs["_%s.%s" % (m, c)] = ("int", "src_%s_%s" % (m, c))
@@ -670,6 +698,16 @@ class Fn:
         kw = {k.arg: k.value for k in node.keywords}
         if None in kw or len(kw) != len(node.keywords):
             bad(node, "unsupported keyword arguments")
+        if cls in CTOR_AS_ARG:
+            if kw or len(node.args) != 1:
+                bad(node, "%s constructor form other than (int)" % cls)
+            return ("int", self.int_(node.args[0], env))             # the object is represented by the integer it is made from
+        if cls == "EUI":
+            args = list(node.args) + ([kw.pop("version")] if "version" in kw and len(node.args) == 1 else [])
+            if kw or len(args) != 2:
+                bad(node, "EUI constructor form other than (int, version)")
+            val, ver = self.int_(args[0], env), self.int_(args[1], env)
+            return ("out", "eui", "(mk_eui %s %s)" % (ver, val))
         if cls == "IPAddress":
             args = list(node.args) + ([kw.pop("version")] if "version" in kw and len(node.args) == 1 else [])
             if kw or len(args) != 2:
@@ -775,7 +813,10 @@ class Fn:
                 if env[node.id][0] == "sarg":
                     bad(node, "use of %s before its isinstance(_, _int_type) guard" % node.id)
                 return env[node.id]
-            if node.id in ("IPAddress", "IPNetwork") and node.id in self.mod.classes:
+            if node.id in ("IPAddress", "IPNetwork") and (node.id in self.mod.classes
+                                                         or self.mod.imports.get(node.id) == "netaddr.ip." + node.id):
+                return ("cls", node.id)
+            if node.id in CTOR_AS_ARG and node.id in self.mod.classes:
                 return ("cls", node.id)
             if node.id in self.attrs and not node.id.startswith("self"):
                 return self.attrs[node.id]
@@ -789,6 +830,16 @@ class Fn:
             if path == "self.__class__" and self.recv:
                 return ("cls", self.recv)
             head, _, tail = (path or "").partition(".")
+            if head in env and env[head][0] == "dialect" and tail in ("word_size", "num_words"):
+                return ("int", "(%s %s)" % ("fst" if tail == "word_size" else "snd", env[head][1]))
+            if head in env and env[head][0] == "eui":
+                t = env[head][1]
+                if tail in ("_value", "_module.version"):
+                    return ("int", "(%s %s)" % ("evalue" if tail == "_value" else "ever", t))
+                r = self.mod.lookup("EUI", tail) if "." not in tail else None
+                if r and r[2]:
+                    return self.generated(node, "EUI", tail, "(ever %s) (evalue %s)" % (t, t), [])
+                bad(node, "attribute %s of an EUI" % tail)
             if head in env and (env[head][0] == "net" or env[head][0][0] == "opnd"):
                 return self.objattr(node, head, tail, env)
             if self.recv and path and path.startswith("self.") and path.count(".") == 1:
@@ -827,6 +878,17 @@ class Fn:
             rest = [self.bool_(x, env) for x in node.values[1:]]
             self.nohoist -= 1
             return ("bool", "(%s)" % (" && " if isinstance(node.op, ast.And) else " || ").join([first] + rest))
+        if isinstance(node, ast.Compare) and len(node.ops) == 1 and isinstance(node.ops[0], (ast.Eq, ast.Is)) and dotted(
+                node.left) == "self._module" and "self._module.version" in self.attrs and isinstance(node.comparators[0], ast.Name) and (
+                node.comparators[0].id + ".version") in self.attrs and node.comparators[0].id not in env:
+            # self._module == _m / is _m: the strategy modules are told apart by their `version` constants
+            return ("bool", "(%s =? %s)" % (self.attrs["self._module.version"][1], self.attrs[node.comparators[0].id + ".version"][1]))
+        if isinstance(node, ast.Compare) and len(node.ops) == 1 and isinstance(node.ops[0], ast.In) and isinstance(
+                node.comparators[0], ast.Attribute) and isinstance(node.comparators[0].value, ast.Name) and (
+                node.comparators[0].value.id in self.mod.classes and node.comparators[0].value.id not in env):
+            # e in C.ATTR for a class-level tuple of int literals
+            x = self.int_(node.left, env)
+            return ("bool", "(existsb (Z.eqb %s) [%s])" % (x, "; ".join(self.tr.class_tuple(node.comparators[0]))))
         if isinstance(node, ast.Compare):
             xs = [self.int_(x, env) for x in [node.left] + node.comparators[:1]]
             self.nohoist += 1                                   # a <= b <= c evaluates c only if a <= b
@@ -980,6 +1042,8 @@ class Fn:
                 return ("int", t)
             if f.id == "int" and ty == "obj":                       # int(IPAddress object) = its __int__()
                 return self.generated(node, "IPAddress", "__int__", " ".join(t[:3]), [])
+            if f.id == "int" and ty == "eui":                       # int(EUI object) = its __int__()
+                return self.generated(node, "EUI", "__int__", "(ever %s) (evalue %s)" % (t, t), [])
             if f.id == "bool" and ty in ("int", "bool"):
                 return ("bool", "(negb (%s =? 0))" % t if ty == "int" else t)
             bad(node, "%s() of %s" % (f.id, show(ty)))
@@ -1148,6 +1212,7 @@ class Fn:
         """does local x only ever hold objects this function made itself (every binding already translated as a constructor
         result) and never escape (every read is x.<attribute>)?  Only then is `x._prefixlen = e` a plain update of x."""
         bases = {id(n.value) for n in ast.walk(self.f) if isinstance(n, ast.Attribute)}
+        bases |= {id(n.value) for n in ast.walk(self.f) if isinstance(n, ast.Return) and isinstance(n.value, ast.Name)}   # `return x` ends it
         binds = [st for st in ast.walk(self.f) if isinstance(st, (ast.Assign, ast.AugAssign, ast.For, ast.With, ast.NamedExpr))
                  and any(isinstance(n, ast.Name) and n.id == x and isinstance(n.ctx, ast.Store) and id(n) not in bases for n in ast.walk(st))]
         return (all(id(st) in self.freshbind for st in binds) and x not in [a.arg for a in self.f.args.args]
@@ -1215,6 +1280,15 @@ class Fn:
             for (ty, t), cn in reversed(list(zip(items, names))):
                 ir = ("let", cn, t, ir)
             return self.wrap(pre, ir)
+        if (isinstance(tgt, ast.Attribute) and isinstance(tgt.value, ast.Name) and env.get(tgt.value.id, ("",))[0] == "eui"
+                and tgt.attr == "_value"):
+            x, old = tgt.value.id, env[tgt.value.id][1]              # x._value = e on a local EUI object this function made itself
+            if not self.owned(x):
+                bad(s, "attribute assignment on %s, which may be visible under another name" % x)
+            e = self.int_(value, env)
+            pre = self.take_pre()
+            cn, env = self.bind_local(s, x, "eui", env, value)
+            return self.wrap(pre, ("let", cn, "{| ever := ever %s; evalue := %s; edialect := edialect %s |}" % (old, e, old), go(env)))
         if (isinstance(tgt, ast.Attribute) and isinstance(tgt.value, ast.Name) and env.get(tgt.value.id, ("",))[0] == "net"
                 and tgt.attr in ("_value", "_prefixlen")):
             x, old = tgt.value.id, env[tgt.value.id][1]              # x._prefixlen = e on a local object: a new record value for x
@@ -1233,8 +1307,8 @@ class Fn:
         if isinstance(tgt, ast.Name):
             x = tgt.id
             ty = r[1] if r[0] == "out" else r[0]
-            if r[0] == "out" and r[1] == "net" and isinstance(s, ast.Assign) and (
-                    r[2].startswith("(mk_net ") or any(d.fresh and r[2].startswith("(%s " % d.cname) for d in self.depfns)):
+            if r[0] == "out" and r[1] in ("net", "eui") and isinstance(s, ast.Assign) and (
+                    r[2].startswith("(mk_net ") or r[2].startswith("(mk_eui ") or any(d.fresh and r[2].startswith("(%s " % d.cname) for d in self.depfns)):
                 self.freshbind.add(id(s))
             if is_list(ty) and isinstance(value, ast.Name):
                 bad(s, "a second name for a list (aliasing)")
@@ -1295,6 +1369,17 @@ class Fn:
             t, neg = t.operand, True
         if isinstance(t, ast.Call) and dotted(t.func) == "isinstance":
             return self.isinstance_(s, t, neg, rest, env, k, after)
+        if (not neg and isinstance(t, ast.Compare) and len(t.ops) == 1 and isinstance(t.ops[0], ast.Is) and isinstance(t.left, ast.Name)
+                and isinstance(t.comparators[0], ast.Constant) and t.comparators[0].value is None
+                and env.get(t.left.id, ("",))[0] == "optdialect"):
+            # `if dialect is None: dialect = <module constant bound to a dialect class>`: from here on `dialect` is a dialect
+            x, a = t.left.id, s.body[0] if len(s.body) == 1 else None
+            if not (s.orelse == [] and isinstance(a, ast.Assign) and len(a.targets) == 1 and isinstance(a.targets[0], ast.Name)
+                    and a.targets[0].id == x and isinstance(a.value, ast.Name) and a.value.id not in env):
+                bad(s, "`if %s is None:` followed by something other than `%s = <DEFAULT>`" % (x, x))
+            old, dflt = env[x][1], self.tr.dialect_const(a.value.id, a)
+            cn, env = self.bind_local(a.targets[0], x, "dialect", env, t)
+            return ("let", cn, "(match %s with Some h0 => h0 | None => %s end)" % (old, dflt), self.block(rest, env, k, after))
         if isinstance(t, ast.Call) and dotted(t.func) == "hasattr" and "hasattr" not in env and not self.mod.toplevel("hasattr"):
             # hasattr(<parameter>, '<name>'): decided by the declared type of the parameter
             if not (len(t.args) == 2 and not t.keywords and isinstance(t.args[0], ast.Name) and t.args[0].id in [x.arg for x in self.f.args.args]
@@ -1608,7 +1693,7 @@ class Fn:
         base = "(option %s)" % coqty(self.kind, self.f) if self.optional else coqty(self.kind, self.f)
         self.type = "outcome " + base if self.outcome else unparen(base)
         self.kind = "int" if self.kind == "self" else self.kind
-        self.fresh = bool(rets) and all(l[3] and str(l[2]).startswith("(mk_net ") for l in rets)   # every result is a new object
+        self.fresh = bool(rets) and all(l[3] and str(l[2]).startswith(("(mk_net ", "(mk_eui ")) for l in rets)   # every result is a new object
 
     def render(self, ir, ind, oc, optional=False):
         """text of an IR; oc: does the value live in `outcome`"""
@@ -1679,13 +1764,17 @@ class Fn:
             self.render(self.ir, "  ", self.outcome, self.optional))
 
 
+BY_MODULE = {}      # dotted module name -> the first translator made for its file (filled by generate())
+
+
 class Translator:
     """all translated definitions of one source file (`out` None: netaddr/ip/__init__.py with WHITELIST + FUNCS)"""
 
     def __init__(self, fn=IPFILE, out=None, prefix="", specs=None, parent=None):
         self.fn, self.out, self.prefix, self.parent = fn, out, prefix, parent
         self.specs = WHITELIST + FUNCS if specs is None else specs
-        self.done, self.order, self.failed, self.active = {}, [], {}, []
+        self.done, self.order, self.failed, self.active, self.consts = {}, [], {}, [], {}
+        BY_MODULE.setdefault(re.sub(r"(/__init__)?\.py$", "", fn).replace("/", "."), self)
         CURFILE.append(fn)
         try:
             self.mod = Module(fn)
@@ -1695,16 +1784,90 @@ class Translator:
     def mangle(self, recv, name):
         return mangle(recv, name, self.prefix)
 
+    def const_eval(self, node, ns, depth=0):
+        """value of an int constant expression over literals, the names of `ns` (a class body being evaluated) and the module's
+        top-level int constants"""
+        if const_int(node) is not None:
+            return const_int(node)
+        if isinstance(node, ast.Name) and node.id in ns:
+            return ns[node.id]
+        if isinstance(node, ast.Name) and depth < 8:
+            ds = [a for a in self.mod.tree.body if any(isinstance(n, ast.Name) and n.id == node.id and isinstance(n.ctx, ast.Store)
+                                                       for n in ast.walk(a))]
+            if len(ds) == 1 and isinstance(ds[0], ast.Assign) and len(ds[0].targets) == 1 and isinstance(ds[0].targets[0], ast.Name):
+                return self.const_eval(ds[0].value, {}, depth + 1)
+        if isinstance(node, ast.BinOp) and type(node.op) in (ast.Add, ast.Sub, ast.Mult, ast.FloorDiv, ast.Pow):
+            a, b = self.const_eval(node.left, ns, depth), self.const_eval(node.right, ns, depth)
+            if isinstance(node.op, (ast.FloorDiv,)) and b == 0 or isinstance(node.op, ast.Pow) and b < 0:
+                bad(node, "constant expression")
+            return {ast.Add: a + b, ast.Sub: a - b, ast.Mult: a * b, ast.FloorDiv: a // b if b else 0, ast.Pow: a ** max(b, 0)}[type(node.op)]
+        bad(node, "constant expression %s" % type(node).__name__)
+
+    def class_ints(self, cls, depth=0):
+        """the int-valued class attributes of `cls` as Python sees them: each class body is evaluated in its own namespace
+        (falling back to the module constants), attributes are looked up through the bases"""
+        c = self.mod.classes.get(cls)
+        if c is None or depth > 8:
+            bad(c, "class %s is not defined in this module" % cls)
+        out = {}
+        for b in reversed(c.bases):
+            out.update(self.class_ints(dotted(b), depth + 1) if dotted(b) != "object" else {})
+        ns = {}
+        for st in c.body:
+            if isinstance(st, ast.Assign) and len(st.targets) == 1 and isinstance(st.targets[0], ast.Name):
+                try:
+                    ns[st.targets[0].id] = self.const_eval(st.value, ns)
+                except Untranslatable:
+                    ns.pop(st.targets[0].id, None)
+                    out.pop(st.targets[0].id, None)
+            elif not (isinstance(st, ast.Expr) and isinstance(st.value, ast.Constant)) and not isinstance(st, (ast.Pass, ast.FunctionDef)):
+                bad(st, "statement in the body of class %s that the translator does not read" % cls)
+        out.update(ns)
+        return out
+
+    def dialect_const(self, name, node):
+        """the Gallina constant for the module-level name `name`, which must be bound once, to a dialect class of this module:
+        the pair (word_size, num_words) of that class"""
+        cn = self.mangle(None, name)
+        if cn not in self.consts:
+            ds = [a for a in self.mod.tree.body for n in ast.walk(a) if isinstance(n, ast.Name) and n.id == name and isinstance(n.ctx, ast.Store)]
+            if (len(ds) != 1 or not isinstance(ds[0], ast.Assign) or len(ds[0].targets) != 1 or not isinstance(ds[0].value, ast.Name)
+                    or ds[0].value.id not in self.mod.classes or self.mod.imports.get(name)):
+                bad(node, "%s is not bound exactly once, at top level, to a class of this module" % name)
+            attrs = self.class_ints(ds[0].value.id)
+            if "word_size" not in attrs or "num_words" not in attrs:
+                bad(node, "class %s has no constant word_size / num_words" % ds[0].value.id)
+            self.consts[cn] = ("(* %s: %s = %s, line %d: (word_size, num_words) of that class *)\nDefinition %s : Z * Z := (%d, %d).\n"
+                               % (self.fn, name, ds[0].value.id, ds[0].lineno, cn, attrs["word_size"], attrs["num_words"]))
+        return cn
+
+    def class_tuple(self, node):
+        """the int literals of the class-level tuple C.ATTR (bound once in the body of C, to a tuple of int literals)"""
+        c = self.mod.classes[node.value.id]
+        ds = [a for a in c.body for n in ast.walk(a) if isinstance(n, ast.Name) and n.id == node.attr and isinstance(n.ctx, ast.Store)]
+        if (len(ds) != 1 or not isinstance(ds[0], ast.Assign) or len(ds[0].targets) != 1 or not isinstance(ds[0].value, ast.Tuple)
+                or any(const_int(x) is None for x in ds[0].value.elts)):
+            bad(node, "%s.%s is not bound once, to a tuple of int literals" % (node.value.id, node.attr))
+        if any(isinstance(f, ast.FunctionDef) and any(isinstance(n, ast.Attribute) and n.attr == node.attr and not isinstance(n.ctx, ast.Load)
+                                                      for n in ast.walk(f)) for k in self.mod.classes.values() for f in k.body):
+            bad(node, "%s.%s is assigned somewhere" % (node.value.id, node.attr))
+        return [literal(x, self.mod.text) if isinstance(x, ast.Constant) else "(%d)" % const_int(x) for x in ds[0].value.elts]
+
     def owner_of_samefile(self, name):
         return self.parent.owner_of(name) if (self.parent is not None and self.parent.fn == self.fn) else None
 
     def owner_of(self, name):
-        """the translator that holds the module-level function `name` as seen from this file: this one, or (for a name imported
-        from netaddr.ip) the translator of netaddr/ip/__init__.py; None if nobody lists it"""
+        """(translator, name there) of the module-level function called `name` in this file: this translator, or -- for
+        `from <module> import f [as name]` -- the first translator of that module's file; None if nobody lists the function"""
         if any(k[0] is None and k[1] == name for k in self.specs) and not self.mod.imports.get(name):
-            return self
-        if self.parent is not None and self.mod.imports.get(name) == "netaddr.ip." + name and self.parent.owner_of(name):
-            return self.parent
+            return self, name
+        imp = self.mod.imports.get(name)
+        if imp:
+            module, _, real = imp.rpartition(".")
+            t = BY_MODULE.get(module)
+            if t is not None and t is not self and any(k[0] is None and k[1] == real for k in t.specs) and not t.mod.imports.get(real):
+                return t, real
+            return None
         return self.owner_of_samefile(name)
 
     def modof(self, cls):
@@ -1715,8 +1878,9 @@ class Translator:
 
     def get(self, recv, name, node=None):
         key = (recv, name)
-        if recv is None and self.owner_of(name) not in (None, self):
-            return self.owner_of(name).get(recv, name, node)
+        if recv is None and self.owner_of(name) is not None and self.owner_of(name)[0] is not self:
+            t, real = self.owner_of(name)
+            return t.get(None, real, node)
         if recv is not None and self.modof(recv) is not self.mod:
             return self.parent.get(recv, name, node)
         if self.parent is not None and self.parent.fn == self.fn and not any(w[:2] == key for w in self.specs):
@@ -1757,10 +1921,10 @@ class Translator:
         return self
 
 
-def constants():
-    """width / version / max_int of the two strategy modules, as Gallina constants."""
+def constants(strategy=STRATEGY):
+    """width / version / max_int of the given strategy modules, as Gallina constants."""
     out = []
-    for m, fn in STRATEGY:
+    for m, fn in strategy:
         mod = Module(fn)
         known = {}
         for c in ("width", "version", "max_int"):
@@ -1806,6 +1970,7 @@ def failures(tr, failed, mine):
 
 
 def generate():
+    BY_MODULE.clear()
     tr = Translator().run()
     units = [Translator(fn, out, prefix, specs, tr).run() for fn, out, prefix, _, specs in UNITS]
     names = [x for t in [tr] + units for k in t.order for x in [t.mangle(*k)] + [L.name for L in t.done[k].loops]]
@@ -1825,8 +1990,10 @@ def generate():
     for t, (fn, ofn, _, req, _) in zip(units, UNITS):
         uses = sorted({d.file for k in t.order for d in t.done[k].depfns} - {ofn}, key=FILES.index)
         fails = failures(t, sorted(t.failed.items(), key=lambda kv: (kv[0][0] or "", kv[0][1])), lambda k: True)
-        text = HEAD % (fn, "", req + "".join(" Gen." + u[:-2] for u in uses)) + "\n".join(t.done[k].body_text for k in t.order) + (
-            "\n" + fails if fails else "")
+        consts = constants(UNIT_STRATEGY[ofn]) if ofn in UNIT_STRATEGY else []
+        consts += [t.consts[c] for c in sorted(t.consts)]
+        text = HEAD % (fn + "".join(", " + f for _, f in UNIT_STRATEGY.get(ofn, ())), "", req + "".join(" Gen." + u[:-2] for u in uses)) + (
+            "\n".join(consts) + "\n" if consts else "") + "\n".join(t.done[k].body_text for k in t.order) + ("\n" + fails if fails else "")
         text.encode("ascii")
         out[ofn] = text
     return out
